@@ -670,7 +670,7 @@ def spec_socks_response_roundtrip(ck, version, hostmax=HOSTMAX):
                 if version == 5:
                     ex.prove(o, 'C06/socks5-reply/verdict-survives', z3.Implies(ok2, resp2.fields[1].t == cmd.t))
                 else:
-                    ex.prove(o, 'C06/socks4-reply/verdict-survives', z3.Implies(ok2, (resp2.fields[1].t == BV(90, 8)) == (cmd.t == BV(0, 8))))
+                    ex.prove(o, 'C06/socks4-reply/verdict-survives', z3.Implies(ok2, (resp2.fields[1].t == BV(0, 8)) == (cmd.t == BV(0, 8))))      # success is 0 on both sides of the wire (90 on it)
                 ex.prove(o, 'C12/socks%s-reply/reader-leaves-exactly-the-following-bytes' % tag,
                          z3.Implies(z3.And(ok2, host_ok), stream(o, rcell2).pos == wire.len))
     ck.absorb(ex, 'SocksResponse::write_to(v%d)->read_from' % version, [s for s, _ in outs])
